@@ -4,7 +4,7 @@ from . import errors as E
 from . import helpers_rules as H
 
 META = {
-    'claim_added': "Also decided: which node a class-recognition error cites (missing key / not a mapping: the node itself; wrong attribute: its key node), path-sensitively; set_value keeps the replaced node's marks; format_rec_error collects every leaf; recognition keeps no state between nodes; cited marks come from locals of the activation, not from shared fields or post-hook nodes. Round 3: PyYAML reads the caller's text unmodified, so marks are positions in the user's document (R17.10/11); the error of every child judgement is recorded as a cause (R17.5). Round 6 (E14): caches on the code this property is about are invisible - no value that lives in a memo cell (dict / lazily filled attribute / lru_cache) is modified by the code it is handed to, the key of a cell contains every input its value depends on, no mutable parameter default is modified or handed out; given that, the program is analysed as if every lookup missed.",
+    'claim_added': "Also decided: which node a class-recognition error cites (missing key / not a mapping: the node itself; wrong attribute: its key node), path-sensitively; set_value keeps the replaced node's marks; format_rec_error collects every leaf; recognition keeps no state between nodes; cited marks come from locals of the activation, not from shared fields or post-hook nodes. Round 3: PyYAML reads the caller's text unmodified, so marks are positions in the user's document (R17.10/11); the error of every child judgement is recorded as a cause (R17.5). Round 6 (E14): caches on the code this property is about are invisible - no value that lives in a memo cell (dict / lazily filled attribute / lru_cache) is modified by the code it is handed to, the key of a cell contains every input its value depends on, no mutable parameter default is modified or handed out; given that, the program is analysed as if every lookup missed. Round 12: the memo rule covers yatiml.constructors and yatiml.loader (an error text remembered with the position of the first failure).",
     'level': 'other',
     'technique': 'static: inductive "positioned message" predicate over string construction (format/concatenation/f-string parts, '
                  'locals by reaching definitions, caught RecognitionError, format_rec_error) applied to every raise and every error '
